@@ -264,10 +264,13 @@ def build_case(rnd, tier, for_c15=False):
     marks = Markers(ext)
     steps = []
     nsave = [0]
+    deleted = [False]
     cur_settings = [dict(settings, enter_lines=enter, exit_lines=exit_)]
     # C15: sometimes an earlier run of the job is abandoned without any end event (paused, then restarted from the beginning)
     nprints = rnd.choice([1, 1, 2, 3]) if not for_c15 else rnd.choice([1, 1, 1, 2])
     for pi in range(nprints):
+        if deleted[0]:
+            break                      # no regions left: further prints would have nothing to show
         steps.append(["event", EV_START])
         feats = mk(rel=rnd.random() < 0.3, inch=rnd.random() < 0.2, at=True, fw=rnd.random() < 0.2, p_inside=0.5, extgen=marks,
                    p_ext=0.05, ext=False, zmoves=True, retmove=rnd.random() < 0.5, beds=False, hv=rnd.random() < 0.1, hv_bed_sized=True,
@@ -293,6 +296,14 @@ def build_case(rnd, tier, for_c15=False):
             cur = dict(cur_settings[0], enter=decorate(rnd, enter2), exit=decorate(rnd, exit2), enter_lines=enter2, exit_lines=exit2)
             cur_settings[0] = cur
             prog.insert(rnd.randrange(4, len(prog)), ["settings", cur])
+        if not for_c15 and rnd.random() < 0.12 and len(prog) > 10:
+            # shrinking allowed: all regions are deleted through the API somewhere in the job (possibly while the tool is in one);
+            # an open episode then lasts until the next move, and what it withheld is delivered there
+            cur_settings[0] = dict(cur_settings[0], shrink=True)
+            steps.insert(len(steps) - 0, ["settings", dict(cur_settings[0])])
+            cut = rnd.randrange(5, len(prog))
+            prog[cut:cut] = [["api_delete", r[-1]] for r in regs]
+            deleted[0] = True
         steps += prog
         if for_c15 and g.believed_open() and rnd.random() < 0.15:
             # shrinking allowed: the region the tool is in is deleted through the API, then the job completes
@@ -314,6 +325,11 @@ def build_case(rnd, tier, for_c15=False):
             steps.append(["script", "gcode", "afterPrintDone"])
         elif k < 0.8:
             steps.append(["event", rnd.choice(EV_END)])
+            if rnd.random() < 0.5:
+                # commands queued between jobs (jogging, a message): no job is active, nothing of the dead episode may surface
+                between = [["g", "G90"], ["g", "G1 X%d Y%d F3000" % (rnd.randint(150, 190), rnd.randint(150, 190))], ["g", marks(rnd)],
+                           ["g", "G1 X%d Y%d" % (rnd.randint(150, 190), rnd.randint(150, 190))]]
+                steps += between[:rnd.randint(2, 4)]
         # else: the next PrintStarted (if any) arrives without any end event
     if for_c15:
         names = ["afterPrintDone", "afterPrintDone", "beforePrintStarted", "afterPrintCancelled", "afterPrintPaused", "beforePrintResumed"]
